@@ -16,6 +16,13 @@ from . import explore as X
 from . import sym as S
 from .mode import NativeRNGMode, SymMode
 from . import ops as _ops  # noqa: F401  (registers the symbolic op table)
+import importlib as _il
+import os as _os
+import pkgutil as _pk
+
+for _m in sorted(_pk.iter_modules([_os.path.dirname(__file__)]), key=lambda m: m.name):
+    if _m.name.startswith("ops_"):
+        _il.import_module(f"vk.{_m.name}")  # additional op tables contributed per area
 from .tensor import SymTensor, lift, oarr, payload
 
 # ------------------------------------------------------------------------------------------------
